@@ -145,7 +145,7 @@ impl WBTreeSet {
 }
 impl Clone for WBTreeSet { #[verifier::external_body] fn clone(&self) -> (r: Self) ensures r@ == self@ { unimplemented!() } }
 
-// ---------------- prefix_tree.rs real text ----------------
+// ---------------- prefix_tree.rs real text (pattern parameters desugared) ----------------
 pub struct PrefixTree1 {
     pub set: WBTreeSet,
 }
@@ -155,58 +155,124 @@ pub struct PrefixTree2 {
     pub map: WBTreeMap<PrefixTree1>,
 }
 
+pub open spec fn t1(a: u32) -> Seq<u32> { seq![a] }
+pub open spec fn t2(a: u32, b: u32) -> Seq<u32> { seq![a, b] }
+pub proof fn lemma_t1(t: Seq<u32>, a: u32) ensures (t == t1(a)) <==> (t.len() == 1 && t[0] == a)
+{ if t.len() == 1 && t[0] == a { assert(t =~= t1(a)); } }
+pub proof fn lemma_t2(t: Seq<u32>, a: u32, b: u32) ensures (t == t2(a, b)) <==> (t.len() == 2 && t[0] == a && t[1] == b), t2(a, b).skip(1) == t1(b)
+{ if t.len() == 2 && t[0] == a && t[1] == b { assert(t =~= t2(a, b)); } assert(t2(a, b).skip(1) =~= t1(b)); }
+pub proof fn lemma_skip1(t: Seq<u32>) requires t.len() == 2 ensures t.skip(1) == t1(t[1]), t == t2(t[0], t[1])
+{ assert(t.skip(1) =~= t1(t[1])); assert(t =~= t2(t[0], t[1])); }
+
 impl PrefixTree1 {
     pub open spec fn view(&self) -> ISet<Seq<u32>> { ISet::new(|t: Seq<u32>| t.len() == 1 && self.set@.contains(t[0])) }
     pub open spec fn wf(&self) -> bool { true }
-    pub fn new() -> (r: Self) ensures r@ =~= ISet::<Seq<u32>>::empty() {
+    pub fn new() -> (r: Self) ensures r@ =~= ISet::<Seq<u32>>::empty(), r.wf() {
         Self {
             set: WBTreeSet::new(),
         }
     }
     pub fn insert(&mut self, arg0__: [u32; 1]) -> (b: bool)
-        ensures final(self)@ =~= old(self)@.insert(arg0__@), b == !old(self)@.contains(arg0__@)
+        ensures final(self)@ == old(self)@.insert(arg0__@), b == !old(self)@.contains(arg0__@), final(self).wf()
     { let el0 = arg0__[0];
+        proof { assert(arg0__@ =~= t1(el0)); }
+        let ghost pre = *self;
+        let r =
         self.set.insert(el0)
+        ;
+        proof {
+            assert forall|t: Seq<u32>| self@.contains(t) <==> pre@.insert(t1(el0)).contains(t) by { lemma_t1(t, el0); }
+            assert(self@ =~= pre@.insert(t1(el0)));
+            lemma_t1(t1(el0), el0);
+        }
+        r
+    }
+    pub fn contains(&self, arg0__: [u32; 1]) -> (b: bool)
+        ensures b == self@.contains(arg0__@)
+    { let el0 = arg0__[0];
+        proof { assert(arg0__@ =~= t1(el0)); lemma_t1(t1(el0), el0); }
+        self.set.contains(&el0)
     }
     pub fn remove(&mut self, arg0__: [u32; 1]) -> (b: bool)
-        ensures final(self)@ =~= old(self)@.remove(arg0__@), b == old(self)@.contains(arg0__@)
+        ensures final(self)@ == old(self)@.remove(arg0__@), b == old(self)@.contains(arg0__@)
     { let el0 = arg0__[0];
+        proof { assert(arg0__@ =~= t1(el0)); }
+        let ghost pre = *self;
+        let r =
         self.set.remove(&el0)
+        ;
+        proof {
+            assert forall|t: Seq<u32>| self@.contains(t) <==> pre@.remove(t1(el0)).contains(t) by { lemma_t1(t, el0); }
+            assert(self@ =~= pre@.remove(t1(el0)));
+            lemma_t1(t1(el0), el0);
+        }
+        r
     }
     pub fn is_empty(&self) -> (b: bool) ensures b == (self@ =~= ISet::<Seq<u32>>::empty()) {
+        proof {
+            if !(self.set@ =~= Set::<u32>::empty()) { let x = choose|x: u32| self.set@.contains(x); lemma_t1(t1(x), x); assert(self@.contains(t1(x))); }
+        }
         self.set.is_empty()
     }
-    pub fn difference(&self, other: &Self) -> (r: Self) ensures r@ =~= self@.difference(other@) {
+    pub fn difference(&self, other: &Self) -> (r: Self) ensures r@ == self@.difference(other@) {
+        let r =
         Self {
             set: self.set.difference(&other.set),
         }
+        ;
+        proof { assert(r@ =~= self@.difference(other@)); }
+        r
     }
 }
 
 impl PrefixTree2 {
     pub open spec fn view(&self) -> ISet<Seq<u32>> {
-        ISet::new(|t: Seq<u32>| t.len() == 2 && self.map@.contains_key(t[0]) && self.map@[t[0]]@.contains(t.skip(1)))
+        ISet::new(|t: Seq<u32>| t.len() == 2 && self.map@.contains_key(t[0]) && self.map@[t[0]]@.contains(t1(t[1])))
     }
     /// no key maps to an empty subtree
-    pub open spec fn wf(&self) -> bool { forall|k: u32| self.map@.contains_key(k) ==> !(self.map@[k]@ =~= ISet::<Seq<u32>>::empty()) }
+    pub open spec fn wf(&self) -> bool { forall|k: u32| #[trigger] self.map@.contains_key(k) ==> !(self.map@[k]@ =~= ISet::<Seq<u32>>::empty()) }
 
     pub fn insert(&mut self, arg0__: [u32; 2]) -> (b: bool)
         requires old(self).wf()
-        ensures final(self).wf(), final(self)@ =~= old(self)@.insert(arg0__@), b == !old(self)@.contains(arg0__@)
+        ensures final(self).wf(), final(self)@ == old(self)@.insert(arg0__@), b == !old(self)@.contains(arg0__@)
     { let el0 = arg0__[0]; let el1 = arg0__[1];
+        proof { assert(arg0__@ =~= t2(el0, el1)); assert([el1]@ =~= t1(el1)); }
+        let ghost pre = *self;
+        let r =
         self.map
             .entry(el0)
             .or_insert_with(PrefixTree1::new)
             .insert([el1])
+        ;
+        proof {
+            assert forall|t: Seq<u32>| self@.contains(t) <==> pre@.insert(t2(el0, el1)).contains(t) by { lemma_t2(t, el0, el1); if t.len() == 2 { lemma_t1(t1(t[1]), el1); lemma_t1(t1(el1), t[1]); } }
+            assert(self@ =~= pre@.insert(t2(el0, el1)));
+            lemma_t2(t2(el0, el1), el0, el1);
+            assert forall|k: u32| #[trigger] self.map@.contains_key(k) implies !(self.map@[k]@ =~= ISet::<Seq<u32>>::empty()) by {
+                if k == el0 { assert(self.map@[k]@.contains(t1(el1))); }
+            }
+        }
+        r
+    }
+    pub fn contains(&self, arg0__: [u32; 2]) -> (b: bool)
+        ensures b == self@.contains(arg0__@)
+    { let el0 = arg0__[0]; let el1 = arg0__[1];
+        proof { assert(arg0__@ =~= t2(el0, el1)); assert([el1]@ =~= t1(el1)); lemma_t2(t2(el0, el1), el0, el1); }
+        match self.map.get(&el0) { None => false, Some(tree) => tree.contains([el1]) }
     }
     pub fn remove(&mut self, arg0__: [u32; 2]) -> (b: bool)
         requires old(self).wf()
-        ensures final(self).wf(), final(self)@ =~= old(self)@.remove(arg0__@), b == old(self)@.contains(arg0__@)
+        ensures final(self).wf(), final(self)@ == old(self)@.remove(arg0__@), b == old(self)@.contains(arg0__@)
     { let el0 = arg0__[0]; let el1 = arg0__[1];
+        proof { assert(arg0__@ =~= t2(el0, el1)); assert([el1]@ =~= t1(el1)); lemma_t2(t2(el0, el1), el0, el1); }
+        let ghost pre = *self;
+        let ghost mut mid: ISet<Seq<u32>> = ISet::empty();
+        let r =
         match self.map.entry(el0) {
             Entry::Occupied(mut entry) => {
                 let tree = entry.get_mut();
                 let was_present = tree.remove([el1]);
+                proof { mid = tree@; assert(mid == pre.map@[el0]@.remove(t1(el1))); }
                 if tree.is_empty() {
                     entry.remove();
                 }
@@ -214,24 +280,46 @@ impl PrefixTree2 {
             }
             Entry::Vacant(_) => false,
         }
+        ;
+        proof {
+            if pre.map@.contains_key(el0) {
+                assert(mid == pre.map@[el0]@.remove(t1(el1)));
+                if mid =~= ISet::<Seq<u32>>::empty() { assert(self.map@ =~= pre.map@.remove(el0)); }
+                else { assert(self.map@.contains_key(el0) && self.map@[el0]@ == mid); assert(self.map@.dom() =~= pre.map@.dom()); }
+            } else { assert(self.map@ =~= pre.map@); }
+            assert forall|t: Seq<u32>| self@.contains(t) <==> pre@.remove(t2(el0, el1)).contains(t) by {
+                lemma_t2(t, el0, el1);
+                if t.len() == 2 { lemma_t1(t1(t[1]), el1); lemma_t1(t1(el1), t[1]);
+                    if t[0] == el0 && pre.map@.contains_key(el0) {
+                        if mid =~= ISet::<Seq<u32>>::empty() {
+                            if pre.map@[el0]@.contains(t1(t[1])) && t[1] != el1 { assert(mid.contains(t1(t[1]))); }
+                        }
+                    } else if t[0] != el0 && pre.map@.contains_key(t[0]) {
+                        assert(self.map@.contains_key(t[0]) && self.map@[t[0]] == pre.map@[t[0]]);
+                    }
+                }
+            }
+            assert(self@ =~= pre@.remove(t2(el0, el1)));
+            assert forall|k: u32| #[trigger] self.map@.contains_key(k) implies !(self.map@[k]@ =~= ISet::<Seq<u32>>::empty()) by {
+                if k != el0 { assert(pre.map@.contains_key(k) && self.map@[k] == pre.map@[k]); }
+            }
+        }
+        r
     }
     pub fn is_empty(&self) -> (b: bool)
         requires self.wf()
         ensures b == (self@ =~= ISet::<Seq<u32>>::empty())
     {
-        self.map.is_empty()
-    }
-    pub fn remove_restriction(&mut self, el0: u32, restriction: &PrefixTree1)
-        requires old(self).wf()
-        ensures final(self).wf(),
-            final(self)@ =~= old(self)@.difference(ISet::new(|t: Seq<u32>| t.len() == 2 && t[0] == el0 && restriction@.contains(t.skip(1))))
-    {
-        match self.map.entry(el0) {
-            Entry::Occupied(mut occupied_entry) => {
-                *occupied_entry.get_mut() = occupied_entry.get_mut().difference(&restriction);
+        proof {
+            if !(self.map@ =~= Map::<u32, PrefixTree1>::empty()) {
+                let k = choose|k: u32| self.map@.contains_key(k);
+                let s = choose|s: Seq<u32>| self.map@[k]@.contains(s);
+                assert(s.len() == 1); lemma_t1(s, s[0]);
+                lemma_t2(t2(k, s[0]), k, s[0]);
+                assert(self@.contains(t2(k, s[0])));
             }
-            Entry::Vacant(_) => {}
         }
+        self.map.is_empty()
     }
 }
 
